@@ -60,7 +60,7 @@ func Checks() map[string]*simcore.Check {
 	return map[string]*simcore.Check{
 		"C44": {
 			ID: "C44", Engine: "netsim", Level: "exploration",
-			Rule: "plan = two static keys, crypto seed, snappy on/off, 0-30 messages per direction (codes 0..2^64-1, sizes 0..70000 with padding boundaries, rarely the 2^24-1 limit and limit+1), per-direction fragmentation mode (all available / 1 byte / tape-chosen), write window, 0-2 stream faults (xor, ephemeral-key replacement, inject, replay, dup, drop, truncate, stall) addressed as (direction, write unit, region, position), or a hand-written peer whose handshake carries an invalid curve point; every conn.Write, message read, blocking read and wake-up is a gate released by the tape. Non-trivial = a fault fired or the scheduler had a real choice at >=2 steps; distinct = distinct (schedule, wire bytes, per-endpoint outcome) fingerprints.",
+			Rule: "plan = two static keys, crypto seed, snappy on/off, 0-30 messages per direction (codes 0..2^64-1, sizes 0..70000 with padding boundaries, rarely the 2^24-1 limit and limit+1), per-direction fragmentation mode (all available / 1 byte / tape-chosen), write window, reader holding the returned payload slice uncopied across the endpoint's next Write, 0-2 stream faults (xor, ephemeral-key replacement, inject, replay, dup, drop, truncate, stall) addressed as (direction, write unit, region, position), or a hand-written peer whose handshake carries an invalid curve point; every conn.Write, message read, blocking read and wake-up is a gate released by the tape. Non-trivial = a fault fired or the scheduler had a real choice at >=2 steps; distinct = distinct (schedule, wire bytes, per-endpoint outcome) fingerprints.",
 			Assumptions: []string{
 				"crypto/rand is replaced by testing/cryptotest.SetGlobalRandom and the global math/rand is re-seeded per run (EIP-8 padding), so wire bytes are a function of the plan",
 				"a random modification is detected by a 16/32-byte MAC: a run in which a modified frame verifies by chance (2^-128) would be reported as a violation",
@@ -70,7 +70,7 @@ func Checks() map[string]*simcore.Check {
 				Stub: []string{"net.Conn (SimConn: fragmentation, tampering, stalls, windows, virtual-clock deadlines)", "message producers/consumers (harness actors)", "hand-written malicious handshake peer"}},
 			Runs: map[string]int{"quick": 16000, "thorough": 600000},
 			Gen:  Gen44, Decode: Decode44, Run: Run44, Shrink: Shrink44,
-			ProbeNames: []string{"handshake-ok", "all-delivered", "error-at-fault", "short-reads", "handshake-failed-after-fault", "forged-peer-1", "forged-peer-2", "forged-peer-control-accepted", "stall-timeout-observed"},
+			ProbeNames: []string{"handshake-ok", "all-delivered", "error-at-fault", "short-reads", "handshake-failed-after-fault", "forged-peer-1", "forged-peer-2", "forged-peer-control-accepted", "stall-timeout-observed", "payload-held-across-write"},
 		},
 		"C46": {
 			ID: "C46", Engine: "netsim", Level: "exploration",
